@@ -291,9 +291,9 @@ def run_shard(spec):
 
 def check_floors(counters, evaluations, tier):
     msgs = []
-    for key, frac in (('concurrent-writers', 0.12),
+    for key, frac in (('concurrent-writers', 0.1),
                       ('chunk-larger-than-buffer', 0.12),
-                      ('worker-closed-pipe', 0.2), ('generations', 0.2)):
+                      ('worker-closed-pipe', 0.13), ('generations', 0.14)):
         if counters.get(key, 0) < frac * evaluations:
             msgs.append("%s in only %d of %d cases" % (
                 key, counters.get(key, 0), evaluations))
